@@ -157,6 +157,9 @@ var deviations = []func(s *scCfg){
 	func(s *scCfg) { s.Rev = 2 },
 	func(s *scCfg) { s.Rev = 3 },
 	func(s *scCfg) { s.Rev = 4 },
+	func(s *scCfg) { s.Rev = 5 },
+	func(s *scCfg) { s.Rev = 6 },
+	func(s *scCfg) { s.Rev = 7 },
 	func(s *scCfg) { s.PAttr = 2; s.Resp = 0 },
 	func(s *scCfg) { s.PAttr = 2; s.Resp = 1 },
 	func(s *scCfg) { s.PAttr = 2; s.TI = 0 },
@@ -228,7 +231,7 @@ func randSc(r *Rng) scCfg {
 			s.Payload = Pick(r, []int{1, 2, 2, 3})
 		case 8:
 			if r.Chance(1, 4) {
-				s.Rev = 3 + r.Intn(2)
+				s.Rev = 3 + r.Intn(5)
 			} else if r.Chance(1, 3) {
 				s.Sig = r.Intn(2)
 			} else {
@@ -702,6 +705,8 @@ func genLattice(a *Args, r *Rng, emit func(c *lcase), history func(base lcase, s
 	storeErr := func(c *lcase) { c.Entry = "VerifyBlob"; c.Sc.Auth = 1 }
 	revoked := func(c *lcase) { c.Entry = "Verify"; c.Sc.Rev = 1 }
 	revErr := func(c *lcase) { c.Entry = "NVerifyBlob"; c.Sc.Rev = 2 }
+	revNilNil := func(c *lcase) { c.Entry = "Verify"; c.Sc.Rev = 6 }
+	revNilEntry := func(c *lcase) { c.Entry = "VerifyBlob"; c.Sc.Rev = 4 }
 	otherRepo := func(c *lcase) { c.Entry = "Verify"; c.OCI.Kind, c.OCI.NoneKind = 1, 1 }
 	otherRepoSkip := func(c *lcase) { c.Entry = "SkipVerify"; c.OCI.Kind, c.OCI.NoneKind = 1, 4 }
 	otherName := func(c *lcase) { c.Entry = "VerifyBlob"; c.Blob.Kind, c.Blob.NoneKind = 1, 1 }
@@ -716,7 +721,7 @@ func genLattice(a *Args, r *Rng, emit func(c *lcase), history func(base lcase, s
 	scripts := [][]func(c *lcase){
 		{metaErr, metaOK, metaErr, plain("Verify"), metaOK},
 		{notInstalled, metaOK, respErr, metaOK, tiFail, metaOK},
-		{plain("Verify"), untrusted, plain("Verify"), storeErr, plain("VerifyBlob"), revoked, plain("Verify"), revErr, plain("NVerifyBlob")},
+		{plain("Verify"), untrusted, plain("Verify"), storeErr, plain("VerifyBlob"), revoked, plain("Verify"), revErr, plain("NVerifyBlob"), revNilNil, plain("Verify"), revNilEntry, plain("VerifyBlob")},
 		{plain("SkipVerify"), otherRepoSkip, plain("SkipVerify"), otherRepo, plain("Verify"), otherName, plain("VerifyBlob"), plain("NVerify")},
 		{otherRepo, plain("NVerify"), otherName, plain("NVerifyBlob"), otherRepoSkip, plain("SkipVerify")},
 		{on("Verify", good), on("Verify", badSig), on("Verify", good), on("Verify", mism), on("Verify", good)},
